@@ -35,7 +35,7 @@ Definition spec_ok (c : case) : bool :=
       match o with
       | APanic | ABad => false
       | _ =>
-          match qeval db [] (parse_std ch) with
+          match qeval db [] (chain_qry ch) with
           | RUndef => true
           | RErr => match o with AErr => true | _ => false end
           | ROk rs => match o with ARows os => bag_eqb rs os | _ => false end
@@ -46,6 +46,11 @@ Definition spec_ok (c : case) : bool :=
 (* the recorded finding class of the case (Model/SubqClass.v); 0 = none *)
 Definition known_class (c : case) : Z :=
   match c with Case ws db ch _ => stmt_class ws db ch end.
+
+(* statements the implementation model does not cover (counted by the harness as well) *)
+Definition is_unmodelled (c : case) : bool :=
+  match c with Case ws db ch _ => match impl_stmt ws db ch with MUnm => true | _ => false end end.
+Definition count_unmodelled (cs : list case) : Z := Z.of_nat (length (filter is_unmodelled cs)).
 
 Fixpoint failures_from (i : Z) (cs : list case) : list (Z * bool * bool * Z) :=
   match cs with
